@@ -375,6 +375,17 @@ def main():
         summary["payload_layouts"] = len(cases)
         summary["zero_sized_types"] = len({d["T"] for _, _, d in parsed if d["tsize"] == "0"})
         summary["max_talign"] = max(c[1] for c in cases)
+        taligns = {c[1] for c in cases}
+        summary["taligns_above_4096"] = sorted(a for a in taligns if a > 4096)
+        summary["types_above_4096"] = len({d["T"] for _, _, d in parsed if int(d["talign"]) > 4096})
+        summary["zero_sized_types_above_4096"] = len({d["T"] for _, _, d in parsed
+                                                      if int(d["talign"]) > 4096 and d["tsize"] == "0"})
+        # the grid itself is part of the check: alignments 1..4096 AND beyond the page size, each with
+        # a zero-sized payload (a clamp of the allocation alignment must be observable)
+        need = {1, 2, 4, 8, 16, 32, 64, 128, 256, 512, 1024, 2048, 4096, 8192, 16384, 65536}
+        missing = sorted(need - taligns) + sorted(a for a in need if (0, a) not in set(cases))
+        if missing:
+            mismatches.append("the probe's grid lacks payload alignments (or their zero-sized payload): %r" % missing)
         summary["profiles"] = ["debug", "release"]
         summary["mismatches"] = mismatches[:20]
         by_case = {}
